@@ -196,6 +196,30 @@ def gen(tier, rng):
                     rd, kt, inv = CONFIGS[cnt % len(CONFIGS)]
                     cnt += 1
                     yield {'kind': kind, 'left': isl, 'L': L, 'R': R, 'inv': inv, 'cs': cs, 'rd': rd, 'kt': kt}
+    # change-directed: a size / threshold literal that is new in the tree under test (harness/hot.py) is used as chunk size,
+    # chunk-size divisor, run length and column length
+    from harness import hot
+    for K in hot.hot_sizes():
+        for _ in range(2500 if tier == 'quick' else 20000):
+            cs = rng.choice([K - 1, K, K + 1, 2 * K, 3 * K, K * K if K <= 40 else 2 * K + 1, max(2, K // 2)])
+            cs = max(1, cs)
+            kind = rng.choice(KINDS)
+
+            def hside(unique):
+                target = rng.choice([cs - 1, cs, cs + 1, cs + max(1, cs // K), cs + max(1, cs // K) + 1, 2 * cs, 2 * cs + 1,
+                                     rng.randint(0, 3 * cs + 2), K, K + 1])
+                xs, key = [], 0
+                while len(xs) < target:
+                    key += rng.choice([1, 1, 2])
+                    run = 1 if unique else rng.choice([1, 1, 2, K - 1, K, K + 1, max(1, cs - 1), 3])
+                    xs.extend([key] * max(1, run))
+                return xs[:max(target, 0)] if not unique else xs
+            L = hside(kind in ('lu', 'bu'))
+            R = hside(kind in ('ru', 'bu')) if rng.random() < 0.6 else sorted(rng.sample(range(1, 3 * cs + 8), rng.randint(0, min(cs, 12))))
+            if kind in ('ru', 'bu'):
+                R = sorted(set(R))
+            rd, kt, inv = rng.choice(CONFIGS)
+            yield {'kind': kind, 'left': rng.randint(0, 1), 'L': L, 'R': R, 'inv': inv, 'cs': cs, 'rd': rd, 'kt': kt}
     # structured random longer cases with runs planted around chunk boundaries
     for _ in range(3000 if tier == 'quick' else 40000):
         cs = rng.randint(2, 9)
